@@ -233,7 +233,8 @@ def main():
     known = [k for k in load_known() if k.get("property") == prop]
     ev = {"runs": 0, "ok": 0, "violations": 0, "deadlocks": 0, "step_cap": 0, "crashes": 0, "steps": 0, "switches": 0,
           "branch_points": 0, "nontrivial_runs": 0, "det_checked": 0, "det_mismatch": 0, "incidental": 0,
-          "races_checked": 0, "clock_span_ns": 0, "hb_overflow_runs": 0, "g0_runs": 0, "g1_runs": 0}
+          "races_checked": 0, "clock_span_ns": 0, "hb_overflow_runs": 0, "g0_runs": 0, "g1_runs": 0,
+          "tso_runs": 0, "tso_buffered_stores": 0, "tso_delay_decisions": 0}
     faults_fired, faults_offered, probes, strat = {}, {}, {}, {}
     per_lane = {}
     samples = []
@@ -324,6 +325,8 @@ def main():
             "reach_probes": probes,
             "granularity_runs": {"G0_sync_atomic_volatile": ev["g0_runs"], "G1_plus_plain_shared_accesses": ev["g1_runs"]},
             "strategy_runs": strat,
+            "memory_model_runs": {"sequentially_consistent": ev["runs"] - ev["tso_runs"], "x86_tso_store_buffering": ev["tso_runs"],
+                                  "stores_buffered": ev["tso_buffered_stores"], "drain_delay_decisions": ev["tso_delay_decisions"]},
             "race_checks_on_watched_memory": ev["races_checked"],
             "hb_disabled_runs_too_many_threads": ev["hb_overflow_runs"],
             "incidental_observations": {"count": ev["incidental"], "first": incidental_first},
@@ -336,7 +339,7 @@ def main():
             "build_s": round(bt, 2),
         },
         "assumptions": [
-            "explored executions are sequentially consistent interleavings at instrumented-access granularity; C++/x86-TSO reorderings are not explored",
+            "explored executions are interleavings at instrumented-access granularity, sequentially consistent or (a per-run option) with x86-TSO store buffering for instrumented stores; weaker reorderings the C++ memory model would allow are not explored",
             "the scheduler's model of pthread mutex/condvar/semaphore/join/once/futex semantics is trusted",
             "accesses by uninstrumented code (libc memcpy, libstdc++.so internals) are neither scheduling points nor shadow-checked",
             "exploration is seeded sampling: a clean batch is evidence, not proof",
